@@ -679,7 +679,199 @@ Proof.
   rewrite !bool_decide_eq_true_2 by reflexivity. reflexivity.
 Qed.
 
+(* ---------- what the scheduler CACHE charges: SchedulerCache.NewTaskInfo ---------- *)
+
+(* the vector charged to the node / queue ledgers is upstream's request + pods,
+   PLUS the pod's CSI volume count on each attach-limit name; it is one object
+   for Resreq and InitResreq; for every list [keys] of resolved names *)
+Theorem cache_reservation_eq_upstream ippvs plr ippl dra keys m p :
+  pod_ok p ->
+  let up1 := add_scalar (new_resource (k8s_pod_requests plsup (opts_of ippvs plr ippl dra) p)) pods_name 1 in
+  cache_task_resreq tracked plsup ippvs plr ippl dra keys m p = cache_add_csi up1 keys /\
+  cache_task_init_resreq tracked plsup ippvs plr ippl dra keys m p = cache_add_csi up1 keys /\
+  cache_task_best_effort tracked plsup ippvs plr ippl dra keys m p = is_empty 1 (cache_add_csi up1 keys).
+Proof.
+  intros Hok up1.
+  unfold cache_task_best_effort, cache_task_init_resreq, cache_task_resreq, task_resreq, task_init_resreq.
+  rewrite (volcano_eq_upstream _ _ _ _ _ Hok). fold up1. repeat split.
+Qed.
+
 End Names.
+
+(* independent description of what the CSI step does to a vector: cpu and memory
+   untouched, every name gains the number of its occurrences in [keys], names
+   that do not occur keep their entry (or absence) *)
+Lemma csi_fold_lookup keys : forall (c : smap) k,
+  default 0 (fold_left (fun c k => <[k := default 0 (c !! k) + 1]> c) keys c !! k) =
+  default 0 (c !! k) + Z.of_nat (count_occ Pos.eq_dec keys k).
+Proof.
+  induction keys as [|a keys IH]; intros c k; simpl; [lia|].
+  rewrite IH. destruct (Pos.eq_dec a k) as [->|Hne].
+  - rewrite lookup_insert. simpl. lia.
+  - rewrite lookup_insert_ne by assumption. lia.
+Qed.
+
+Lemma csi_fold_notin keys : forall (c : smap) k,
+  k ∉ keys -> fold_left (fun c k => <[k := default 0 (c !! k) + 1]> c) keys c !! k = c !! k.
+Proof.
+  induction keys as [|a keys IH]; intros c k Hk; simpl; [reflexivity|].
+  apply not_elem_of_cons in Hk as [Hne Hk]. rewrite IH by assumption.
+  apply lookup_insert_ne. congruence.
+Qed.
+
+Theorem cache_add_csi_spec r keys :
+  cpu (cache_add_csi r keys) = cpu r /\ mem (cache_add_csi r keys) = mem r /\
+  (forall k, sget (cache_add_csi r keys) k = sget r k + Z.of_nat (count_occ Pos.eq_dec keys k)) /\
+  (forall k, k ∉ keys -> scm (cache_add_csi r keys) !! k = scm r !! k).
+Proof.
+  unfold cache_add_csi. split; [rewrite add_cpu; simpl; lia|]. split; [rewrite add_mem; simpl; lia|]. split.
+  - intros k. rewrite add_sget. f_equal. unfold sget, csi_counts. rewrite scm_some.
+    rewrite csi_fold_lookup, lookup_empty. simpl. lia.
+  - intros k Hk. rewrite add_lookup, scm_some. unfold csi_counts.
+    rewrite csi_fold_notin, lookup_empty by assumption. destruct (scm r !! k); reflexivity.
+Qed.
+
+(* the cache law means exactly the relation of [cache_reservation_eq_upstream] *)
+Lemma law_cache_reservation_spec up crq cirq be keys :
+  law_cache_reservation up crq cirq be keys = true <->
+  crq = cache_add_csi (add_scalar up pods_name 1) keys /\
+  cirq = cache_add_csi (add_scalar up pods_name 1) keys /\
+  be = is_empty 1 (cache_add_csi (add_scalar up pods_name 1) keys).
+Proof.
+  unfold law_cache_reservation. cbv zeta.
+  rewrite !andb_true_iff, !bool_decide_eq_true, eqb_true_iff. tauto.
+Qed.
+
+(* ---------- the node ledger: induction over the pods resident on a node ---------- *)
+
+(* NodeInfo.AddTask adds Resreq to Used for every resident task *)
+Definition node_used (reqs : list res) : res := fold_left add reqs empty_res.
+
+Lemma map_ext_Forall' {A B} (f g : A -> B) (P : A -> Prop) l :
+  (forall x, P x -> f x = g x) -> Forall P l -> map f l = map g l.
+Proof.
+  intros H. induction 1 as [|x l Hx _ IH]; [reflexivity|]. simpl. rewrite (H x Hx), IH. reflexivity.
+Qed.
+
+(* ---------- kube-scheduler's own units ---------- *)
+
+(* k8s.io/kubernetes/pkg/scheduler/framework Resource.Add: cpu by MilliValue(),
+   everything else by Value() *)
+Definition kube_cpu (l : rl) : Z := milli_value (default 0 (l !! cpu_name)).
+Definition kube_value (l : rl) (k : positive) : Z := unit_value (default 0 (l !! k)).
+
+Definition whole_units (q : Z) : Prop := 0 <= q /\ q mod nano_per_unit = 0.
+
+Lemma milli_of_whole q : whole_units q -> milli_value q = 1000 * unit_value q.
+Proof.
+  intros [Hq Hm]. unfold milli_value, unit_value.
+  assert (q = (q / nano_per_unit) * nano_per_unit) as E.
+  { rewrite (Z.div_mod q nano_per_unit) at 1 by (unfold nano_per_unit; lia). rewrite Hm. lia. }
+  set (a := q / nano_per_unit) in *. rewrite E.
+  rewrite (round_away_mul a nano_per_unit) by (unfold nano_per_unit; lia).
+  replace (a * nano_per_unit) with ((1000 * a) * nano_per_milli) by (unfold nano_per_unit, nano_per_milli; lia).
+  apply round_away_mul. unfold nano_per_milli. lia.
+Qed.
+
+Section Units.
+Variable tracked : positive -> bool.
+
+(* NewResource against kube's conversion: same cpu, same memory, same pods, and
+   a tracked scalar (or ephemeral-storage) in whole units is 1000 x kube's amount *)
+Theorem new_resource_kube_units l :
+  cpu (new_resource tracked l) = kube_cpu l /\
+  mem (new_resource tracked l) = kube_value l mem_name /\
+  sget (new_resource tracked l) pods_name = kube_value l pods_name /\
+  (forall k, k <> cpu_name -> k <> mem_name -> k <> pods_name ->
+     bool_decide (k = eph_name) || tracked k = true ->
+     whole_units (default 0 (l !! k)) ->
+     sget (new_resource tracked l) k = 1000 * kube_value l k) /\
+  (forall k, k <> cpu_name -> k <> mem_name -> k <> pods_name -> k <> eph_name -> tracked k = false ->
+     scm (new_resource tracked l) !! k = None).
+Proof.
+  split; [reflexivity|]. split; [reflexivity|]. split; [|split].
+  - unfold sget, kube_value. rewrite scm_new, map_lookup_imap.
+    destruct (l !! pods_name) as [q|]; simpl; [reflexivity|]. vm_compute. reflexivity.
+  - intros k Hc Hm Hp Ht Hw. unfold sget, kube_value. rewrite scm_new, map_lookup_imap.
+    destruct (l !! k) as [q|] eqn:E; simpl in *.
+    + unfold sc_conv.
+      rewrite (bool_decide_eq_false_2 (k = cpu_name)), (bool_decide_eq_false_2 (k = mem_name)),
+              (bool_decide_eq_false_2 (k = pods_name)) by assumption. simpl.
+      case_bool_decide; simpl in *; [apply milli_of_whole; assumption|].
+      rewrite Ht. simpl. apply milli_of_whole; assumption.
+    + vm_compute. reflexivity.
+  - intros k Hc Hm Hp He Ht. rewrite scm_new, map_lookup_imap.
+    destruct (l !! k) as [q|]; simpl; [|reflexivity]. unfold sc_conv.
+    rewrite (bool_decide_eq_false_2 (k = cpu_name)), (bool_decide_eq_false_2 (k = mem_name)),
+            (bool_decide_eq_false_2 (k = pods_name)), (bool_decide_eq_false_2 (k = eph_name)) by assumption.
+    simpl. rewrite Ht. reflexivity.
+Qed.
+
+End Units.
+
+Section Node.
+Variable tracked : positive -> bool.
+Variable plsup : positive -> bool.
+
+(* volcano's vector read in kube-scheduler's units (W2/W6 of the audit): same
+   cpu, same memory, one more pod; a tracked scalar or ephemeral-storage amount
+   in whole units is kube's amount x 1000 (volcano keeps milli-units), and a
+   name NewResource does not track is not reserved at all. *)
+Theorem volcano_in_kube_units ippvs plr ippl dra p :
+  pod_ok tracked plsup p ->
+  let vc := vc_pod_request tracked plsup ippvs plr ippl dra p in
+  let L := k8s_pod_requests plsup (opts_of ippvs plr ippl dra) p in
+  cpu vc = kube_cpu L /\ mem vc = kube_value L mem_name /\
+  sget vc pods_name = kube_value L pods_name + 1 /\
+  (forall k, k <> cpu_name -> k <> mem_name -> k <> pods_name ->
+     bool_decide (k = eph_name) || tracked k = true ->
+     whole_units (default 0 (L !! k)) -> sget vc k = 1000 * kube_value L k) /\
+  (forall k, k <> cpu_name -> k <> mem_name -> k <> pods_name -> k <> eph_name -> tracked k = false ->
+     scm vc !! k = None).
+Proof.
+  intros Hok vc L.
+  destruct (volcano_eq_upstream_amounts tracked plsup ippvs plr ippl dra p Hok) as (Hc & Hm & Hp & Hk).
+  fold vc L in Hc, Hm, Hp, Hk.
+  destruct (new_resource_kube_units tracked L) as (Kc & Km & Kp & Kt & Ku).
+  split; [congruence|]. split; [congruence|]. split; [congruence|]. split.
+  - intros k H1 H2 H3 H4 H5. unfold sget. rewrite Hk by assumption. apply Kt; assumption.
+  - intros k H1 H2 H3 H4 H5. rewrite Hk by assumption. apply Ku; assumption.
+Qed.
+
+(* the node ledger: for EVERY list of resident pods (with their resolved CSI
+   volume names and lifecycle positions) the sum volcano's cache charges equals
+   the sum of upstream's requests (+ pods + volumes); induction over the list *)
+Theorem node_used_eq_upstream ippvs plr ippl dra (rs : list (list positive * pod_meta * pod)) :
+  Forall (fun x => pod_ok tracked plsup x.2) rs ->
+  node_used (map (fun x => cache_task_resreq tracked plsup ippvs plr ippl dra x.1.1 x.1.2 x.2) rs) =
+  node_used (map (fun x => cache_add_csi
+                 (add_scalar (new_resource tracked (k8s_pod_requests plsup (opts_of ippvs plr ippl dra) x.2)) pods_name 1)
+                 x.1.1) rs).
+Proof.
+  intros H. f_equal. eapply map_ext_Forall'; [|exact H]. intros x Hx. simpl.
+  apply (cache_reservation_eq_upstream tracked plsup ippvs plr ippl dra x.1.1 x.1.2 x.2 Hx).
+Qed.
+
+(* consequently the comparison "the new pod's InitResreq fits into allocatable
+   minus what the residents are charged" has the same answer on volcano's
+   vectors and on upstream's.  This is a corollary by congruence: kubelet
+   admission itself is NOT modelled. *)
+Corollary node_fits_iff ippvs plr ippl dra rs alloc eps d keys m p :
+  Forall (fun x => pod_ok tracked plsup x.2) rs -> pod_ok tracked plsup p ->
+  less_equal eps (cache_task_init_resreq tracked plsup ippvs plr ippl dra keys m p)
+    (sub alloc (node_used (map (fun x => cache_task_resreq tracked plsup ippvs plr ippl dra x.1.1 x.1.2 x.2) rs))) d =
+  less_equal eps
+    (cache_add_csi (add_scalar (new_resource tracked (k8s_pod_requests plsup (opts_of ippvs plr ippl dra) p)) pods_name 1) keys)
+    (sub alloc (node_used (map (fun x => cache_add_csi
+                 (add_scalar (new_resource tracked (k8s_pod_requests plsup (opts_of ippvs plr ippl dra) x.2)) pods_name 1)
+                 x.1.1) rs))) d.
+Proof.
+  intros Hrs Hp. rewrite (node_used_eq_upstream _ _ _ _ _ Hrs).
+  destruct (cache_reservation_eq_upstream tracked plsup ippvs plr ippl dra keys m p Hp) as (_ & -> & _).
+  reflexivity.
+Qed.
+
+End Node.
 
 (* the reservation law is the relation of the theorem on all three vectors *)
 Lemma law_task_reservation_spec up vc rq irq be :
@@ -833,3 +1025,35 @@ Example example_pod_value :
   (cpu vc, mem vc, sget vc pods_name, sget vc 5, sget vc 7, size (scm vc)) = (4100, 208, 1, 1000, 6000, 3%nat) /\
   (cpu up, mem up, sget up pods_name, sget up 5, sget up 7, size (scm up)) = (4100, 208, 0, 1000, 6000, 2%nat).
 Proof. split; vm_compute; reflexivity. Qed.
+
+(* ---------- what the remaining boolean laws mean (soundness and completeness) ---------- *)
+
+Lemma law_kube_units_spec kcpu kmem ksc vc rq :
+  law_kube_units kcpu kmem ksc vc rq = true <->
+  cpu vc = kcpu /\ mem vc = kmem /\ cpu rq = kcpu /\ mem rq = kmem /\
+  Forall (fun kv => sget vc kv.1 = 1000 * kv.2 /\ sget rq kv.1 = 1000 * kv.2) ksc.
+Proof.
+  unfold law_kube_units. rewrite !andb_true_iff, !bool_decide_eq_true, forallb_forall, Forall_forall.
+  assert ((forall x, In x ksc ->
+             bool_decide (sget vc x.1 = 1000 * x.2) && bool_decide (sget rq x.1 = 1000 * x.2) = true) <->
+          (forall x, x ∈ ksc -> sget vc x.1 = 1000 * x.2 /\ sget rq x.1 = 1000 * x.2)) as E.
+  { split; intros Hall x Hx.
+    - apply elem_of_list_In, Hall, andb_true_iff in Hx as [Ha Hb].
+      apply bool_decide_eq_true in Ha, Hb. split; assumption.
+    - apply elem_of_list_In, Hall in Hx as [Ha Hb]. apply andb_true_iff.
+      split; apply bool_decide_eq_true; assumption. }
+  rewrite E. tauto.
+Qed.
+
+Lemma law_not_less_spec up vc :
+  law_not_less up vc = true <->
+  cpu up <= cpu vc /\ mem up <= mem vc /\
+  forall k v, scm up !! k = Some v -> v + (if bool_decide (k = pods_name) then 1 else 0) <= sget vc k.
+Proof.
+  unfold law_not_less. rewrite !andb_true_iff, !bool_decide_eq_true, map_allb_spec.
+  split.
+  - intros [[Hc Hm] Hs]. split; [exact Hc|]. split; [exact Hm|]. intros k v E. apply Hs in E.
+    apply bool_decide_eq_true in E. exact E.
+  - intros (Hc & Hm & Hs). split; [split; assumption|]. intros k v E.
+    apply bool_decide_eq_true. apply Hs, E.
+Qed.
